@@ -45,6 +45,14 @@ RowsL == { R(A("a"), MkList(<<A("p"), A("q")>>), I(1)), R(A("b"), MkList(<<A("p"
 SimpleL == { C(op, <<t, g, i>>) : op \in {"findall", "bagof", "setof"}, t \in {X, Z, C("-", <<X, Y>>)},
                                   g \in {R(X, Y, Z), C("^", <<Z, R(X, Y, Z)>>), C("^", <<X, R(X, Y, Z)>>), C(",", <<R(X, Y, Z), C("==", <<X, A("a")>>)>>)},
                                   i \in {L, MkList(<<V(7), V(8)>>)} }
+\* witnesses that are partially bound: the variable inside the witness f(_) is shared with the template's instance of the same
+\* solution; all the witnesses of a group are unified, so that every instance of the group ends up with ONE variable there
+\* (and setof's duplicates are decided after that); a later binding of the witness reaches every instance
+RowsS == { R(C("-", <<I(1), V(1)>>), C("f", <<V(1)>>), I(1)), R(C("-", <<I(2), V(1)>>), C("f", <<V(1)>>), I(2)), R(C("g", <<V(1)>>), C("f", <<V(1)>>), I(3)),
+           R(C("g", <<V(1)>>), C("f", <<V(2)>>), I(1)), R(A("a"), C("f", <<V(1)>>), I(1)) }
+SimpleS == LET calls == { C(op, <<t, g, L>>) : op \in {"findall", "bagof", "setof"}, t \in {X, Z, C("-", <<X, Z>>)},
+                                                 g \in {R(X, Y, Z), C("^", <<Z, R(X, Y, Z)>>), C("^", <<X, R(X, Y, Z)>>)} }
+           IN calls \cup { C(",", <<c, C("=", <<Y, C("f", <<A("a")>>)>>)>>) : c \in calls }
 VARIABLES st, hist, q, rows
 gvars == <<st, hist, q, rows>>
 \* longer tables whose witnesses interleave (a, b, b, a / a, b, c, c, b, a / ...): every group must list its solutions in solution order
@@ -53,8 +61,8 @@ TableOf(pattern) == [i \in 1..Len(pattern) |-> R(A("a"), Wit(pattern[i]), I(i))]
 TablesO == { TableOf(<<1, 2, 2, 1>>), TableOf(<<1, 2, 3, 3, 2, 1>>), TableOf(<<1, 2, 1, 2, 2, 1>>), TableOf(<<2, 1, 1, 3, 1, 2, 3>>), TableOf(<<1, 1, 2, 2, 1, 3, 2, 1>>) }
 SimpleO == { C(op, <<t, g, L>>) : op \in {"findall", "bagof", "setof"}, t \in {Z, C("-", <<Z, X>>)},
                                   g \in {C("^", <<X, R(X, Y, Z)>>), R(X, Y, Z), C("^", <<X, C(",", <<R(X, Y, Z), C("\\==", <<Z, I(2)>>)>>)>>)} }
-GInit == /\ rows \in (IF LISTS = "order" THEN TablesO ELSE [1..NR -> (IF LISTS = "lists" THEN RowsL ELSE Rows)])
-         /\ q \in (IF LISTS = "order" THEN SimpleO ELSE IF LISTS = "lists" THEN SimpleL ELSE Simple \cup (IF NEST THEN Nested \cup Indirect ELSE {}))
+GInit == /\ rows \in (IF LISTS = "order" THEN TablesO ELSE [1..NR -> (IF LISTS = "lists" THEN RowsL ELSE IF LISTS = "share" THEN RowsS ELSE Rows)])
+         /\ q \in (IF LISTS = "order" THEN SimpleO ELSE IF LISTS = "lists" THEN SimpleL ELSE IF LISTS = "share" THEN SimpleS ELSE Simple \cup (IF NEST THEN Nested \cup Indirect ELSE {}))
          /\ st = InitState(Db(rows), q, 9)
          /\ hist = <<>>
 GNext == /\ ~Terminal(st)
